@@ -21,7 +21,7 @@ var Check = &ev.Check{
 	Level: "exploration",
 	Rule: "every numeric position (explicit field id strict/non-strict, auto-assigned negative id after an explicit one, enum explicit value, enum implicit value after a boundary value, const/default/list element/map key/set element of i8,i16,i32,i64 " +
 		"directly and through a typedef, const of enum type given as integer, bool given as integer) x every boundary literal (for w in {7,15,31,63}: +-2^w and neighbours; 0, +-1, +-2^16, +-2^32, 2^64-1, 2^64) x {decimal, hex}; " +
-		"plus every duplicate / self-reference shape (duplicate field id, duplicate id via auto-assignment, duplicate field name, duplicate enum item incl. case variants, constant and service defined in terms of themselves, length 1..3). " +
+		"plus every sequence of <=3 field declarations with ids over {unset,-1,-2,-3,1,2} (with and without a repeated name) in struct/union/exception/arguments/throws position, strict and non-strict; every enum of <=3 items with names over {A,a,B} and values over {unset,0,1,-1}; and duplicate / self-reference shapes (constant and service defined in terms of themselves, length 1..3). " +
 		"Oracle: accepted => every compiled number equals the source literal and lies in the range of its type, and structural rules hold. Cases are distinct programs by construction; non-trivial = every case.",
 	Run:          run,
 	Workers:      func(string) int { return 4 },
@@ -268,6 +268,8 @@ func programs() []program {
 				return wantInt(m.Constants["c"].Value, l.v, 8, "bool constant")
 			}})
 	}
+	out = append(out, fieldSequences()...)
+	out = append(out, enumSequences()...)
 	// structural shapes: all must be rejected
 	reject := func(kind, src string, ns bool) {
 		out = append(out, program{Kind: kind, Src: src, NonStrict: ns, Lit: "-",
@@ -296,6 +298,177 @@ func programs() []program {
 	reject("service-cycle-2", "service A extends B {}\nservice B extends A {}", false)
 	reject("service-cycle-3", "service A extends B {}\nservice B extends C {}\nservice C extends A {}", false)
 	reject("service-cycle-tail", "service D extends A {}\nservice A extends B {}\nservice B extends A {}", false)
+	return out
+}
+
+// fieldSequences enumerates every sequence of <=4 field declarations whose id
+// is drawn from {unset,-1,-2,-3,1,2} and whose name from {a,b} (suffix-numbered
+// so that names are unique unless deliberately repeated), in five struct-like
+// positions, strict and non-strict. Oracle on acceptance: ids pairwise distinct,
+// explicit ids equal the source, auto ids continue below the last explicit
+// negative one, names distinct.
+func fieldSequences() []program {
+	ids := []string{"", "-1", "-2", "-3", "1", "2"}
+	var out []program
+	containers := []struct{ name, open, close, sep string }{
+		{"struct", "struct S {", "}", ";"},
+		{"union", "union S {", "}", ";"},
+		{"exception", "exception S {", "}", ";"},
+		{"args", "service X { void f(", ") }", ","},
+		{"throws", "exception E {}\nservice X { void f() throws (", ") }", ","},
+	}
+	var rec func(seq []int)
+	emit := func(seq []int, dupName bool) {
+		for _, c := range containers {
+			for _, ns := range []bool{false, true} {
+				c, ns := c, ns
+				var sb strings.Builder
+				sb.WriteString(c.open)
+				names := make([]string, len(seq))
+				for i, x := range seq {
+					names[i] = fmt.Sprintf("f%d", i)
+					if dupName && i == len(seq)-1 {
+						names[i] = "f0"
+					}
+					typ := "i32"
+					if c.name == "throws" {
+						typ = "E"
+					}
+					req := ""
+					if !ns && (c.name == "struct" || c.name == "exception") {
+						req = "optional "
+					}
+					if ids[x] != "" {
+						fmt.Fprintf(&sb, " %s: %s%s %s%s", ids[x], req, typ, names[i], c.sep)
+					} else {
+						fmt.Fprintf(&sb, " %s%s %s%s", req, typ, names[i], c.sep)
+					}
+				}
+				sb.WriteString(" " + c.close)
+				seqCopy := append([]int{}, seq...)
+				src := strings.ReplaceAll(sb.String(), "\\n", "\n")
+				out = append(out, program{Kind: "field-seq:" + c.name, NonStrict: ns, Lit: fmt.Sprint(seq, dupName), Src: src,
+					check: func(m *compile.Module) string {
+						var fg compile.FieldGroup
+						switch c.name {
+						case "struct", "union", "exception":
+							fg = structOf(m, "S").Fields
+						case "args":
+							fg = compile.FieldGroup(m.Services["X"].Functions["f"].ArgsSpec)
+						case "throws":
+							fg = m.Services["X"].Functions["f"].ResultSpec.Exceptions
+						}
+						if len(fg) != len(seqCopy) {
+							return fmt.Sprintf("compiled %d fields, source has %d", len(fg), len(seqCopy))
+						}
+						seenID := map[int16]string{}
+						seenName := map[string]bool{}
+						next := int64(-1)
+						for i, f := range fg {
+							if o, dup := seenID[f.ID]; dup {
+								return fmt.Sprintf("fields %s and %s both have id %d", o, f.Name, f.ID)
+							}
+							seenID[f.ID] = f.Name
+							if seenName[f.Name] {
+								return "duplicate field name " + f.Name
+							}
+							seenName[f.Name] = true
+							if lit := ids[seqCopy[i]]; lit != "" {
+								var v int64
+								fmt.Sscan(lit, &v)
+								if int64(f.ID) != v {
+									return fmt.Sprintf("field %s: compiled id %d, source says %s", f.Name, f.ID, lit)
+								}
+								if v < 0 {
+									next = v - 1
+								}
+							} else {
+								if int64(f.ID) != next {
+									return fmt.Sprintf("field %s: auto-assigned id %d, expected %d", f.Name, f.ID, next)
+								}
+								next--
+							}
+						}
+						return ""
+					}})
+			}
+		}
+	}
+	rec = func(seq []int) {
+		if len(seq) > 0 {
+			emit(seq, false)
+			if len(seq) > 1 {
+				emit(seq, true)
+			}
+		}
+		if len(seq) == 3 {
+			return
+		}
+		for x := range ids {
+			rec(append(append([]int{}, seq...), x))
+		}
+	}
+	rec(nil)
+	return out
+}
+
+// enumSequences enumerates every enum with <=3 items, names over {A,a,B},
+// values over {unset,0,1,-1}. On acceptance: names unique ignoring case,
+// explicit values as written, implicit values previous+1 (first: 0).
+func enumSequences() []program {
+	names := []string{"A", "a", "B"}
+	vals := []string{"", "0", "1", "-1"}
+	var out []program
+	var rec func(ns, vs []int)
+	rec = func(ns, vs []int) {
+		if len(ns) > 0 {
+			var sb strings.Builder
+			sb.WriteString("enum E {")
+			for i := range ns {
+				sb.WriteString(" " + names[ns[i]])
+				if vals[vs[i]] != "" {
+					sb.WriteString(" = " + vals[vs[i]])
+				}
+				sb.WriteString(",")
+			}
+			sb.WriteString(" }")
+			nsC, vsC := append([]int{}, ns...), append([]int{}, vs...)
+			out = append(out, program{Kind: "enum-seq", Lit: fmt.Sprint(ns, vs), Src: sb.String(),
+				check: func(m *compile.Module) string {
+					e, _ := m.Types["E"].(*compile.EnumSpec)
+					if e == nil || len(e.Items) != len(nsC) {
+						return "enum E missing or wrong item count"
+					}
+					seen := map[string]bool{}
+					prev := int64(-1)
+					for i, it := range e.Items {
+						l := strings.ToLower(it.Name)
+						if seen[l] {
+							return "duplicate enum item (ignoring case) " + it.Name
+						}
+						seen[l] = true
+						want := prev + 1
+						if v := vals[vsC[i]]; v != "" {
+							fmt.Sscan(v, &want)
+						}
+						if int64(it.Value) != want {
+							return fmt.Sprintf("item %s compiled to %d, expected %d", it.Name, it.Value, want)
+						}
+						prev = want
+					}
+					return ""
+				}})
+		}
+		if len(ns) == 3 {
+			return
+		}
+		for n := range names {
+			for v := range vals {
+				rec(append(append([]int{}, ns...), n), append(append([]int{}, vs...), v))
+			}
+		}
+	}
+	rec(nil, nil)
 	return out
 }
 
